@@ -171,6 +171,24 @@ theorem cond_correct (x : Opnd) (hn : x.ty ≠ .nil)
     condY Generated.C12.tcFacts x = Spec.condG x := by
   rw [tcfacts_tie]; exact cond_agree x hn hcb
 
+/-- `var x I3; v, ok := x.(S0)` with `I3 = interface{ M0(); m8() }` and `S0` having only `M0`: an impossible
+    assertion whose missing method is not exported. Rejected by both sides, inside the domain; with the skip test
+    of typeAssertionExpr turned into `||` (the seeded change of seeded/C12) the model accepts it. -/
+def tI3 : Ty := .iface 3 [0, 8]
+def tS0 : Ty := .struct 0 [.basic .int, .basic .string] [0]
+def progAssertUnexported : Prog := main [.declz tI3, .defineOk tS0 (.var 0)]
+theorem assert_missing_unexported_rejected :
+    verdictY progAssertUnexported = .err ∧ verdictG progAssertUnexported = .err ∧ DomP progAssertUnexported = true := by
+  unfold verdictY DomP; rw [tcfacts_tie]; decide
+theorem assert_skip_or_accepts :
+    (checkProg (rulesY { Expected.C12.tcFacts with assertSkipMissing := .orBin }) progAssertUnexported).verdict = .ok := by decide
+/-- well-typed assertions: to an interface type (`x.(I1)`), from `interface{}` (`e.(S0)`), to a concrete type
+    that has every method of the interface (`x.(S3)`, `S3` having `M0` and `m8`): accepted by both sides -/
+def progAssertOk : Prog := main [.declz tI3, .declz (.iface 0 []), .define (.assert (.iface 1 [0]) (.var 0)),
+  .define (.assert tS0 (.var 1)), .define (.assert (.struct 3 [.basic .int] [0, 8]) (.var 0))]
+theorem assert_welltyped_accepted : verdictY progAssertOk = .ok ∧ verdictG progAssertOk = .ok := by
+  unfold verdictY; rw [tcfacts_tie]; decide
+
 /-- `var a int; x := a && a` -/
 def progLand : Prog := main [.declz tInt, .define (.bin .land (.var 0) (.var 0))]
 theorem logical_operands_witness : verdictY progLand = .ok ∧ verdictG progLand = .err ∧ DomP progLand = false := by
@@ -289,6 +307,11 @@ theorem incdec_correct (t : Ty) (ht : t.isUntyped = false) : incdecY Generated.C
 theorem cond_typed_correct (x : Opnd) (hx : x.rv = .none) (hxt : x.ty.isUntyped = false) :
     condY Generated.C12.tcFacts x = Spec.condG x := by
   rw [tcfacts_tie]; exact cond_typed_agree x hx hxt
+/-- type assertions `x.(T)` / `v, ok := x.(T)`: for every operand but `nil` and every asserted type of the
+    fragment, typeAssertionExpr accepts exactly the assertions the specification allows -/
+theorem assert_correct (typ : Ty) (x : Opnd) (hn : x.ty ≠ .nil) :
+    assertY Generated.C12.tcFacts typ x = Spec.assertG typ x := by
+  rw [tcfacts_tie]; exact assert_agree typ x hn
 theorem recv_typed_correct (x : Opnd) (hxt : x.ty.isUntyped = false) : recvY Generated.C12.tcFacts x = Spec.recvG x := by
   exact recv_typed_agree _ x hxt
 
